@@ -1,15 +1,20 @@
 /- Line protocol for the C10 DirectSpeakers model (tables: the regenerated Gen/C10_Tables).
-   in : seven fields separated by `|`
+   in : eight fields separated by `|`
         1 layout name (one of the table layouts)
         2 audioPackFormats: `-` (None) | `e` (empty list) | `<id>:<0|1> ...` (id, is_common_definition)
         3 speakerLabels: `-` (none) | labels separated by blanks, each a comma separated list of code
           points (`e` = empty label)
         4 frequency: `<lowPass> <highPass>`, each `-` or `num/den`
         5 `<positionOffset 0|1> <gain num/den> <object gain num/den> <mute 0|1>`
-        6 captured geometry: `<within_bounds bits or -> <closest index or ->`
-        7 captured point-source gains: `-` or `num/den ...`
-   out: `ok <exit> <num/den> ...` | `error <name>` | `bad-op`. -/
+        6 position: `p <az> <el> <dist> <horizontal> <vertical>` (polar as given; lock strings as code
+          points or `-`) | `c <X> <Y> <Z>` (Cartesian after screen edge lock); every coordinate is
+          `value,min,max` with `-` for an absent min/max
+        7 `<tol> <x> <y> <z>`: tolerance and `shifted_position.as_cartesian_array()`
+        8 captured point-source gains: `-` or `num/den ...`
+   out: `ok <exit> <num/den> ... ; <within_bounds bits> ; <candidate bits> ; <closest index or -> ; <shifted az> <shifted el>`
+        (the last group is `-` for Cartesian positions) | `error <name> ; ...same groups` | `bad-op`. -/
 import Earverif.Model.DirectSpeakers
+import Earverif.Model.DirectSpeakersGeom
 import Earverif.Gen.C10_Tables
 import Earverif.Driver.Util
 open Earverif.DS Earverif.Driver
@@ -51,11 +56,29 @@ def showErr : DsError → String
   | .positionOffset => "positionOffset" | .emptyPackList => "emptyPackList"
   | .noLabelInItuPack => "noLabelInItuPack" | .pspShape => "pspShape"
 
+def parseBound? (s : String) : Option Bound :=
+  match s.splitOn "," with
+  | [v, lo, hi] => do some ⟨← parseRat? v, ← parseOptRat? lo, ← parseOptRat? hi⟩
+  | _ => none
+
+def parseOptLabel? (s : String) : Option (Option String) :=
+  if s = "-" then some none else (parseLabel? s).map some
+
+def parsePosition? (ws : List String) : Option Position :=
+  match ws with
+  | ["p", az, el, d, h, v] => do
+    some (.polar (← parseBound? az) (← parseBound? el) (← parseBound? d) ⟨← parseOptLabel? h, ← parseOptLabel? v⟩)
+  | ["c", x, y, z] => do some (.cart (← parseBound? x) (← parseBound? y) (← parseBound? z))
+  | _ => none
+
+def showBits (bs : List Bool) : String := String.ofList (bs.map fun b => if b then '1' else '0')
+
 def answer (line : String) : String :=
   match (line.splitOn "|").map words with
-  | [[lname], packsW, labelsW, [lp, hp], [po, gain, og, mute], [wb, cl], pspW] =>
+  | [[lname], packsW, labelsW, [lp, hp], [po, gain, og, mute], posW, [tol, cx, cy, cz], pspW] =>
     let r : Option String := do
       let L ← Earverif.Gen.C10.layouts.find? (fun L => L.name == lname)
+      let G ← Earverif.Gen.C10.geoms.lookup lname
       let packs ← (match packsW with
         | ["-"] => some none
         | ["e"] => some (some [])
@@ -67,15 +90,22 @@ def answer (line : String) : String :=
         labels := labels, lowPass := ← parseOptRat? lp, highPass := ← parseOptRat? hp, packs := packs,
         hasPositionOffset := ← parseBool? po, gain := ← parseRat? gain, objectGain := ← parseRat? og,
         objectMute := ← parseBool? mute }
-      let g : Geo := {
-        withinBounds := ← (if wb = "-" then some [] else parseBits? wb),
-        closest := ← (if cl = "-" then some none else cl.toNat?.map some),
+      let gi : GeoIn := {
+        pos := ← parsePosition? posW, tol := ← parseRat? tol,
+        cartPos := (← parseRat? cx, ← parseRat? cy, ← parseRat? cz),
         psp := ← (match pspW with
           | ["-"] => some []
           | ws => ws.mapM parseRat?) }
-      match handle Earverif.Gen.C10.rules Earverif.Gen.C10.ituPacks L b g with
-      | .ok (e, pv) => some ("ok " ++ showExit e ++ String.join (pv.map fun x => " " ++ showRat x))
-      | .error e => some ("error " ++ showErr e)
+      let g := geoOf L G (isLfeChannel b) gi
+      let shifted := match gi.pos with
+        | .polar az el _ sel => let s := applySelPolar G az el sel; showRat s.1.value ++ " " ++ showRat s.2.value
+        | .cart .. => "-"
+      let geo := " ; " ++ showBits g.withinBounds ++ " ; " ++
+        showBits (candidates L (isLfeChannel b) g.withinBounds) ++ " ; " ++
+        (match g.closest with | some c => toString c | none => "-") ++ " ; " ++ shifted
+      match handleFull Earverif.Gen.C10.rules Earverif.Gen.C10.ituPacks L G b gi with
+      | .ok (e, pv) => some ("ok " ++ showExit e ++ String.join (pv.map fun x => " " ++ showRat x) ++ geo)
+      | .error e => some ("error " ++ showErr e ++ geo)
     r.getD "bad-op"
   | _ => "bad-op"
 
